@@ -182,6 +182,8 @@ fn add_types_recursive(
     module: &naga::Module,
     ty: Handle<Type>,
 ) {
+    #[cfg(feature = "verif")]
+    crate::verif::step(crate::verif::Site::AddTypesRecursive);
     types.insert(ty);
 
     match &module.types[ty].inner {
